@@ -245,6 +245,12 @@ def _arr(*xs):
     return Array(list(xs))
 
 
+def _pack_intmod(m, v):
+    from pysnark.pack import PackIntMod
+    return PackIntMod(m).pack(v)
+
+
+IMPL_EXTRA["pack_intmod"] = _pack_intmod
 IMPL_EXTRA["array_assert_eq"] = _array_assert_eq
 IMPL_EXTRA["array_add"] = lambda a0, a1, b0, b1: list((_arr(a0, a1) + _arr(b0, b1)).arr)
 IMPL_EXTRA["array_sub"] = lambda a0, a1, b0, b1: list((_arr(a0, a1) - _arr(b0, b1)).arr)
@@ -257,6 +263,7 @@ REF["array_sub"] = lambda a0, a1, b0, b1: [a0 - b0, a1 - b1]
 REF["array_adds"] = lambda a0, a1, s: [a0 + s, a1 + s]
 REF["array_scale"] = lambda a0, a1, s: [a0 * s, a1 * s]
 REF["array_ite"] = lambda c, a0, a1, b0, b1: [a0, a1] if _i(c) else [b0, b1]
+REF["pack_intmod"] = _assert(lambda m, v: 0 <= v < 2 ** ((m - 1).bit_length()))     # packing a secret declares it a bitlen(m)-bit value
 REF["array_assert_eq"] = _assert(lambda a0, a1, b0, b1: a0 == b0 and a1 == b1)
 REF["array_get"] = lambda a0, a1, a2, i: [a0, a1, a2][i] if 0 <= i < 3 else (_ for _ in ()).throw(RefRaise())
 REF["array_set"] = lambda a0, a1, a2, i, v: [v if k == i else x for k, x in enumerate([a0, a1, a2])] if 0 <= i < 3 else (_ for _ in ()).throw(RefRaise())
